@@ -18,70 +18,56 @@ Definition holds (k : bytes) (t : sst) : Prop := has k (s_entries t) = true.
 Lemma snewer_asym : forall a b, snewer a b -> snewer b a -> False.
 Proof. unfold snewer. intros. lia. Qed.
 
-Lemma age_le_not_snewer : forall a b, age_le a b = true -> snewer a b -> False.
+Lemma age_le_not_snewer : forall a b, sst_le a b = true -> snewer a b -> False.
 Proof.
-  unfold age_le, snewer. intros a b H S.
-  destruct (s_level b <? s_level a) eqn:E1.
-  - apply N.ltb_lt in E1. lia.
-  - destruct (s_level a <? s_level b) eqn:E2; try discriminate.
-    apply N.ltb_ge in E1, E2. apply N.leb_le in H. lia.
+  unfold sst_le, snewer. intros a b H S.
+  destruct (N.ltb_spec (s_level b) (s_level a)); try lia.
+  destruct (N.ltb_spec (s_level a) (s_level b)); try discriminate.
+  apply N.leb_le in H. lia.
 Qed.
 
-Lemma age_le_total : forall a b, age_le a b = true \/ age_le b a = true.
+Lemma age_le_total : forall a b, sst_le a b = true \/ sst_le b a = true.
 Proof.
-  unfold age_le. intros.
+  unfold sst_le. intros.
   destruct (s_level b <? s_level a) eqn:E1; auto.
   destruct (s_level a <? s_level b) eqn:E2; auto.
   destruct (s_ts a <=? s_ts b) eqn:E3; auto. right. apply N.leb_gt in E3. apply N.leb_le. lia.
 Qed.
 
-Lemma age_le_trans : forall a b c, age_le a b = true -> age_le b c = true -> age_le a c = true.
+Lemma age_le_trans : forall a b c, sst_le a b = true -> sst_le b c = true -> sst_le a c = true.
 Proof.
-  unfold age_le. intros a b c.
+  unfold sst_le. intros a b c.
   destruct (s_level b <? s_level a) eqn:E1; destruct (s_level a <? s_level b) eqn:E2;
   destruct (s_level c <? s_level b) eqn:E3; destruct (s_level b <? s_level c) eqn:E4;
   destruct (s_level c <? s_level a) eqn:E5; destruct (s_level a <? s_level c) eqn:E6;
   rewrite ?N.ltb_lt, ?N.ltb_ge, ?N.leb_le in *; intros; try discriminate; try lia; auto.
 Qed.
 
-Definition age_lep (a b : sst) : Prop := age_le a b = true.
+Definition age_lep (a b : sst) : Prop := sst_le a b = true.
 
-Lemma age_insert_in : forall x l t, In t (age_insert x l) <-> t = x \/ In t l.
+Lemma age_insert_in : forall x l t, In t (sst_insert x l) <-> t = x \/ In t l.
 Proof.
   induction l; simpl; intros. intuition.
-  destruct (age_le a x); simpl; [rewrite IHl|]; intuition.
+  destruct (sst_le x a); simpl; [|rewrite IHl]; intuition.
 Qed.
 
-Lemma age_insert_sorted : forall x l, StronglySorted age_lep l -> StronglySorted age_lep (age_insert x l).
+Lemma age_insert_sorted : forall x l, StronglySorted age_lep l -> StronglySorted age_lep (sst_insert x l).
 Proof.
   induction l; simpl; intros. repeat constructor.
-  inversion H; subst. destruct (age_le a x) eqn:E.
+  inversion H; subst. destruct (sst_le x a) eqn:E.
+  - constructor; auto. constructor. exact E.
+    rewrite Forall_forall in *. intros t Ht. unfold age_lep. apply age_le_trans with a; auto. apply H3; auto.
   - constructor; auto. rewrite Forall_forall in *. intros t Ht. apply age_insert_in in Ht.
-    destruct Ht as [->|Ht]; [exact E|auto].
-  - constructor; auto. constructor.
-    + destruct (age_le_total a x) as [C|C]; [congruence|exact C].
-    + rewrite Forall_forall in *. intros t Ht. unfold age_lep.
-      apply age_le_trans with a; auto. destruct (age_le_total a x) as [C|C]; [congruence|exact C].
-      apply H3. auto.
+    destruct Ht as [->|Ht]; [|auto]. destruct (age_le_total a x) as [C|C]; [exact C|congruence].
 Qed.
 
-Lemma fold_age_insert : forall l acc,
-  StronglySorted age_lep acc ->
-  StronglySorted age_lep (fold_left (fun a x => age_insert x a) l acc) /\
-  (forall t, In t (fold_left (fun a x => age_insert x a) l acc) <-> In t l \/ In t acc).
-Proof.
-  induction l; simpl; intros. split; auto. intuition.
-  destruct (IHl (age_insert a acc) (age_insert_sorted a acc H)) as [A B]. split; auto.
-  intro t. rewrite B, age_insert_in. intuition.
-Qed.
-
-Lemma age_sort_sorted : forall l, StronglySorted age_lep (age_sort l).
-Proof. intros. apply fold_age_insert. constructor. Qed.
-Lemma age_sort_in : forall l t, In t (age_sort l) <-> In t l.
-Proof. intros. unfold age_sort. rewrite (proj2 (fold_age_insert l [] (SSorted_nil _))). simpl. intuition. Qed.
+Lemma age_sort_sorted : forall l, StronglySorted age_lep (sst_sort l).
+Proof. induction l; simpl. constructor. apply age_insert_sorted. auto. Qed.
+Lemma age_sort_in : forall l t, In t (sst_sort l) <-> In t l.
+Proof. induction l; simpl; intros. tauto. rewrite age_insert_in, IHl. intuition. Qed.
 
 (* the tables in the order Get consults them after a reopen *)
-Definition precl (dir : list dfile) : list sst := rev (age_sort (map d_sst (dsort dir))).
+Definition precl (dir : list dfile) : list sst := rev (sst_sort (map d_sst (dsort dir))).
 
 Lemma dinsert_in : forall x l t, In t (dinsert x l) <-> t = x \/ In t l.
 Proof.
@@ -177,7 +163,6 @@ Record WF (dir : list dfile) (c : N) : Prop := mkWF {
   wf_clock : forall f, In f dir -> dts f < c;
   wf_disj : forall f g k, In f dir -> In g dir -> d_level f = d_level g -> 1 <= d_level f ->
                           dholds k f -> dholds k g -> f = g;
-  wf_keys : forall f e, In f dir -> In e (d_entries f) -> sk e <> [];
   wf_nonempty : forall f, In f dir -> d_entries f <> [];
   wf_size : forall f, In f dir -> 1 <= d_size f
 }.
@@ -218,7 +203,7 @@ Proof.
   - left. eapply ts_inj; eauto. unfold dts. rewrite E. auto.
   - destruct (N.eq_dec (dts g) (dts f)) as [Q|Q].
     + left. eapply ts_inj; eauto.
-    + right. unfold age_lep, age_le in E. unfold dnewer, snewer, dts in *.
+    + right. unfold age_lep, sst_le in E. unfold dnewer, snewer, dts in *.
       destruct (s_level (d_sst f) <? s_level (d_sst g)) eqn:E1.
       * apply N.ltb_lt in E1. lia.
       * destruct (s_level (d_sst g) <? s_level (d_sst f)) eqn:E2; try discriminate.
@@ -664,23 +649,16 @@ Proof.
   unfold kle. intros. rewrite (cb_antisym a b). destruct (bcmp a b); simpl; [left|left|right]; congruence.
 Qed.
 
-Lemma isnil_false : forall a, a <> [] -> isnil a = false.
-Proof. destruct a; simpl; congruence. Qed.
-
-Lemma overlaps_iff : forall f1 l1 f2 l2, f1 <> [] -> l1 <> [] -> f2 <> [] -> l2 <> [] ->
-  (overlaps f1 l1 f2 l2 = true <-> kle f2 l1 /\ kle f1 l2).
+Lemma overlaps_iff : forall f1 l1 f2 l2,
+  overlaps false false f1 l1 f2 l2 = true <-> kle f2 l1 /\ kle f1 l2.
 Proof.
-  intros. unfold overlaps. rewrite !isnil_false by auto. simpl.
+  intros. unfold overlaps. simpl.
   rewrite negb_true_iff, orb_false_iff, !blt_false_kle. tauto.
 Qed.
 
-Lemma overlaps_nonnil : forall f1 l1 f2 l2, overlaps f1 l1 f2 l2 = true ->
-  f1 <> [] /\ l1 <> [] /\ f2 <> [] /\ l2 <> [].
-Proof.
-  unfold overlaps. intros. destruct f1, l1, f2, l2; simpl in *; try discriminate; repeat split; congruence.
-Qed.
+Lemma overlaps_keys : forall n1 n2 f1 l1 f2 l2, overlaps n1 n2 f1 l1 f2 l2 = true -> n1 = false /\ n2 = false.
+Proof. unfold overlaps. intros. destruct n1, n2; simpl in *; try discriminate; auto. Qed.
 
-(* a key held by an ascending file lies between its first and last key *)
 Lemma asc_head_le : forall l e x r, asc l -> l = x :: r -> In e l -> kle (sk x) (sk e).
 Proof.
   intros. subst. destruct H1 as [<-|H1]. apply kle_refl.
@@ -709,27 +687,22 @@ Proof.
   - apply in_map. auto.
 Qed.
 
-Lemma first_last_nonnil : forall dir c f, WF dir c -> In f dir -> d_entries f <> [] ->
-  first_key f <> [] /\ last_key f <> [].
-Proof.
-  intros. unfold first_key, last_key. split.
-  - destruct (d_entries f) eqn:E. congruence. apply (wf_keys _ _ H f s); auto. rewrite E. simpl; auto.
-  - destruct (rev (d_entries f)) eqn:E.
-    + apply (f_equal (@rev _)) in E. rewrite rev_involutive in E. simpl in E. congruence.
-    + apply (wf_keys _ _ H f s); auto. apply in_rev. rewrite E. simpl; auto.
-Qed.
-
 Lemma holds_nonempty : forall k f, dholds k f -> d_entries f <> [].
 Proof. intros. apply dholds_lookup in H. destruct H as (e & H). intro E. rewrite E in H. discriminate. Qed.
 
+Lemma nokeys_false : forall f, d_entries f <> [] -> nokeys f = false.
+Proof. unfold nokeys. intros. destruct (d_entries f); congruence. Qed.
+
+Lemma wf_nokeys : forall dir c f, WF dir c -> In f dir -> nokeys f = false.
+Proof. intros. apply nokeys_false. apply (wf_nonempty _ _ H); auto. Qed.
+
 (* a file holding a key inside [a, b] overlaps [a, b] *)
 Lemma holder_overlaps : forall dir c g k a b, WF dir c -> In g dir -> dholds k g ->
-  a <> [] -> b <> [] -> kle a k -> kle k b ->
-  overlaps (first_key g) (last_key g) a b = true.
+  kle a k -> kle k b ->
+  overlaps (nokeys g) false (first_key g) (last_key g) a b = true.
 Proof.
   intros. destruct (holds_range g k (wf_asc _ _ H g H0) H1) as (A & B & _).
-  destruct (first_last_nonnil dir c g H H0 (holds_nonempty _ _ H1)).
-  apply overlaps_iff; auto. split; eapply kle_trans; eauto.
+  rewrite (wf_nokeys dir c g H H0). apply overlaps_iff. split; eapply kle_trans; eauto.
 Qed.
 
 (* ---------- the tasks the strategies select ---------- *)
@@ -749,42 +722,27 @@ Proof.
   assert (g = i). { eapply ts_inj; eauto. apply same_file_ts; auto. } subst; auto.
 Qed.
 
-Lemma l0_fold : forall sel mn mx,
-  (forall f, In f sel -> first_key f <> [] /\ last_key f <> []) ->
-  forall mn' mx',
-  fold_left (fun mm f => let '(mn, mx) := mm in
-               (if isnil mn || blt (first_key f) mn then first_key f else mn,
-                if isnil mx || blt mx (last_key f) then last_key f else mx)) sel (mn, mx) = (mn', mx') ->
-  (forall f, In f sel -> kle mn' (first_key f) /\ kle (last_key f) mx') /\
-  (mn <> [] -> mn' <> [] /\ kle mn' mn) /\ (mx <> [] -> mx' <> [] /\ kle mx mx') /\
-  (sel <> [] -> mn' <> [] /\ mx' <> []).
+Lemma hull_spec : forall ins lo hi lo' hi',
+  hull lo hi ins = (lo', hi') ->
+  kle lo' lo /\ kle hi hi' /\
+  (forall f, In f ins -> kle lo' (first_key f) /\ kle (last_key f) hi').
 Proof.
-  induction sel as [|f r IH]; simpl; intros mn mx Hk mn' mx' E.
-  - inversion E; subst. split. tauto. split. intro; split; auto; apply kle_refl.
-    split. intro; split; auto; apply kle_refl. tauto.
-  - destruct (Hk f (or_introl eq_refl)) as [Ff Lf].
-    set (mn1 := if isnil mn || blt (first_key f) mn then first_key f else mn) in *.
-    set (mx1 := if isnil mx || blt mx (last_key f) then last_key f else mx) in *.
-    assert (N1 : mn1 <> [] /\ kle mn1 (first_key f) /\ (mn <> [] -> kle mn1 mn)).
-    { unfold mn1. destruct mn as [|b m]; simpl.
-      - split; auto. split. apply kle_refl. congruence.
-      - destruct (blt (first_key f) (b :: m)) eqn:B.
-        + split; auto. split. apply kle_refl. intros _. apply kle_lt. apply blt_true_lt; auto.
-        + split. congruence. split. apply blt_false_kle; auto. intros _. apply kle_refl. }
-    assert (X1 : mx1 <> [] /\ kle (last_key f) mx1 /\ (mx <> [] -> kle mx mx1)).
-    { unfold mx1. destruct mx as [|b m]; simpl.
-      - split; auto. split. apply kle_refl. congruence.
-      - destruct (blt (b :: m) (last_key f)) eqn:B.
-        + split; auto. split. apply kle_refl. intros _. apply kle_lt. apply blt_true_lt; auto.
-        + split. congruence. split. apply blt_false_kle; auto. intros _. apply kle_refl. }
-    destruct N1 as (N1 & N2 & N3), X1 as (X1 & X2 & X3).
-    destruct (IH mn1 mx1 (fun g Hg => Hk g (or_intror Hg)) mn' mx' E) as (A & B & C & D).
-    destruct (B N1) as [B1 B2]. destruct (C X1) as [C1 C2].
-    split; [|split; [|split]].
-    + intros g [<-|Hg]. split; eapply kle_trans; eauto. auto.
-    + intro. split; auto. eapply kle_trans; eauto.
-    + intro. split; auto. eapply kle_trans; eauto.
-    + intros _. auto.
+  unfold hull. induction ins as [|f r IH]; simpl; intros lo hi lo' hi' E.
+  - inversion E; subst. split. apply kle_refl. split. apply kle_refl. intros f [].
+  - set (lo1 := if blt (first_key f) lo then first_key f else lo) in *.
+    set (hi1 := if blt hi (last_key f) then last_key f else hi) in *.
+    assert (A1 : kle lo1 lo /\ kle lo1 (first_key f)).
+    { unfold lo1. destruct (blt (first_key f) lo) eqn:B.
+      - split. apply kle_lt. apply blt_true_lt; auto. apply kle_refl.
+      - split. apply kle_refl. apply blt_false_kle; auto. }
+    assert (B1 : kle hi hi1 /\ kle (last_key f) hi1).
+    { unfold hi1. destruct (blt hi (last_key f)) eqn:B.
+      - split. apply kle_lt. apply blt_true_lt; auto. apply kle_refl.
+      - split. apply kle_refl. apply blt_false_kle; auto. }
+    destruct A1 as (A1 & A2), B1 as (B1 & B2).
+    destruct (IH lo1 hi1 lo' hi' E) as (C1 & C2 & C5).
+    split. eapply kle_trans; eauto. split. eapply kle_trans; eauto.
+    intros g [<-|Hg]. split; eapply kle_trans; eauto. auto.
 Qed.
 
 Lemma in_firstn : forall (A : Type) n (l : list A) x, In x (firstn n l) -> In x l.
@@ -796,14 +754,30 @@ Proof.
   intros dir c maxmem t W H. unfold select_l0 in H.
   destruct (N.of_nat (length (level_files 0 dir)) <? 2); try discriminate.
   set (sel := firstn (N.to_nat maxmem) (level_files 0 dir)) in *.
-  destruct (l0_range sel) as [mn mx] eqn:ER.
-  set (l1 := filter (fun f => overlaps (first_key f) (last_key f) mn mx) (level_files 1 dir)) in *.
+  set (l1 := match l0_range sel with
+             | None => []
+             | Some (mn, mx) =>
+               filter (fun f => overlaps (nokeys f) false (first_key f) (last_key f) mn mx) (level_files 1 dir)
+             end) in *.
   inversion H; subst t; clear H. unfold src_files, t_inputs, mk_task. simpl.
   rewrite !app_nil_r.
   assert (Hsel : forall f, In f sel -> In f dir /\ d_level f = 0).
   { intros f Hf. apply level_files_in. eapply in_firstn; eauto. }
-  assert (Hl1 : forall f, In f l1 -> In f dir /\ d_level f = 1 /\ overlaps (first_key f) (last_key f) mn mx = true).
-  { intros f Hf. apply filter_In in Hf. destruct Hf as [Hf Ho]. apply level_files_in in Hf. tauto. }
+  assert (Hl1 : forall f, In f l1 -> In f dir /\ d_level f = 1).
+  { intros f Hf. unfold l1 in Hf. destruct (l0_range sel) as [[mn mx]|]. 2: destruct Hf.
+    apply filter_In in Hf. destruct Hf as [Hf Ho]. apply level_files_in in Hf. tauto. }
+  assert (Hl1s : StronglySorted tlt l1).
+  { unfold l1. destruct (l0_range sel) as [[mn mx]|]. apply SS_sub. eapply level_files_strict; eauto. constructor. }
+  (* a level-1 file sharing a key with a selected level-0 file is selected too *)
+  assert (Hl1c : forall g k s, In g dir -> d_level g = 1 -> dholds k g -> In s sel -> dholds k s -> In g l1).
+  { intros g k s0 Hg Lg Hh Hs Hsh. unfold l1, l0_range. destruct sel as [|f0 r0] eqn:ES. destruct Hs.
+    destruct (hull (first_key f0) (last_key f0) r0) as [mn mx] eqn:EH.
+    destruct (hull_spec _ _ _ _ _ EH) as (C1 & C2 & C3).
+    assert (Hr : kle mn (first_key s0) /\ kle (last_key s0) mx).
+    { destruct Hs as [<-|Hs]; auto. }
+    destruct (holds_range s0 k (wf_asc _ _ W s0 (proj1 (Hsel s0 (eq_ind _ (fun l => In s0 l) Hs _ (eq_sym eq_refl))))) Hsh) as (R1 & R2 & _).
+    apply filter_In. split. apply level_files_in; auto.
+    eapply holder_overlaps; eauto; eapply kle_trans; try apply Hr; eauto. }
   assert (Hin : forall f, In f (sel ++ l1) <-> In f (rev sel ++ rev l1)).
   { intro f. rewrite !in_app_iff, <- !in_rev. tauto. }
   split; auto.
@@ -811,36 +785,21 @@ Proof.
   { intros f Hf. apply Hin in Hf. apply in_app_iff in Hf. destruct Hf as [Hf|Hf]. apply Hsel; auto. apply Hl1; auto. }
   constructor; auto.
   - intros i Hi. apply Hin in Hi. apply in_app_iff in Hi. destruct Hi as [Hi|Hi].
-    destruct (Hsel _ Hi) as [_ E]. rewrite E. lia. destruct (Hl1 _ Hi) as (_ & E & _). rewrite E. lia.
+    destruct (Hsel _ Hi) as [_ E]. rewrite E. lia. destruct (Hl1 _ Hi) as (_ & E). rewrite E. lia.
   - apply SS_app.
     + apply rev_level_newer with 0. intros; apply Hsel; auto.
       apply SS_firstn. eapply level_files_strict; eauto.
-    + apply rev_level_newer with 1. intros; apply Hl1; auto.
-      apply SS_sub. eapply level_files_strict; eauto.
+    + apply rev_level_newer with 1. intros; apply Hl1; auto. exact Hl1s.
     + intros x y Hx Hy. apply in_rev in Hx, Hy. left.
-      destruct (Hsel _ Hx) as [_ E1]. destruct (Hl1 _ Hy) as (_ & E2 & _). unfold d_level in *. lia.
-  - (* tables outside the inputs sharing a key with an input *)
-    intros k g Hg Hn Hh (i & Hi & Hih).
+      destruct (Hsel _ Hx) as [_ E1]. destruct (Hl1 _ Hy) as (_ & E2). unfold d_level in *. lia.
+  - intros k g Hg Hn Hh (i & Hi & Hih).
     assert (Hn' : ~ In g sel /\ ~ In g l1).
     { split; intro C; apply Hn; apply Hin; apply in_app_iff; auto. }
-    destruct Hn' as [Hn0 Hn1].
-    (* the key lies inside [mn, mx] when a selected level-0 file holds it *)
-    assert (Hr : forall s, In s sel -> dholds k s -> mn <> [] /\ mx <> [] /\ kle mn k /\ kle k mx).
-    { intros s Hs Hsh. unfold l0_range in ER.
-      destruct (l0_fold sel [] [] ) with (mn' := mn) (mx' := mx) as (A & _ & _ & D); auto.
-      { intros f Hf. destruct (Hsel f Hf). eapply first_last_nonnil; eauto.
-        apply (wf_nonempty _ _ W); auto. }
-      destruct (D ltac:(intro E; rewrite E in Hs; destruct Hs)) as [D1 D2].
-      destruct (A s Hs) as [A1 A2].
-      destruct (holds_range s k (wf_asc _ _ W s (proj1 (Hsel s Hs))) Hsh) as (R1 & R2 & _).
-      repeat split; auto; eapply kle_trans; eauto. }
-    apply Hin in Hi. split.
+    destruct Hn' as [Hn0 Hn1]. apply Hin in Hi. split.
     + intro L1.
       apply in_app_iff in Hi. destruct Hi as [Hi|Hi].
-      * destruct (Hr i Hi Hih) as (M1 & M2 & M3 & M4).
-        apply Hn1. apply filter_In. split. apply level_files_in; auto.
-        eapply holder_overlaps; eauto.
-      * destruct (Hl1 i Hi) as (Hid & Li & _).
+      * apply Hn1. eapply Hl1c; eauto.
+      * destruct (Hl1 i Hi) as (Hid & Li).
         assert (i = g). { eapply (wf_disj _ _ W i g k); eauto. congruence. rewrite Li. lia. }
         subst. auto.
     + intros L0 i' Hi' Hih'. assert (Lg : d_level g = 0) by lia.
@@ -848,7 +807,7 @@ Proof.
       * right. destruct (Hsel i' Hi') as [_ Li']. unfold d_level in *. split. congruence.
         apply (firstn_skipn_sorted dfile tlt (N.to_nat maxmem) (level_files 0 dir) i' g); auto.
         eapply level_files_strict; eauto. apply level_files_in; auto.
-      * left. destruct (Hl1 i' Hi') as (_ & Li' & _). unfold d_level in *. lia.
+      * left. destruct (Hl1 i' Hi') as (_ & Li'). unfold d_level in *. lia.
   - intros Dr g Hg Hn. eapply (covers_deeper_spec dir c (sel ++ l1)); eauto.
     + intros f Hf. apply Hincl. apply Hin. auto.
     + intro C. apply Hn. apply Hin. auto.
@@ -880,13 +839,12 @@ Qed.
 
 Lemma shared_key_overlaps : forall dir c f g k, WF dir c -> In f dir -> In g dir ->
   dholds k f -> dholds k g ->
-  overlaps (first_key f) (last_key f) (first_key g) (last_key g) = true.
+  overlaps (nokeys f) (nokeys g) (first_key f) (last_key f) (first_key g) (last_key g) = true.
 Proof.
   intros. destruct (holds_range f k (wf_asc _ _ H f H0) H2) as (A & B & _).
   destruct (holds_range g k (wf_asc _ _ H g H1) H3) as (C & D & _).
-  destruct (first_last_nonnil dir c f H H0 (holds_nonempty _ _ H2)).
-  destruct (first_last_nonnil dir c g H H1 (holds_nonempty _ _ H3)).
-  apply overlaps_iff; auto. split; eapply kle_trans; eauto.
+  rewrite (wf_nokeys dir c f H H0), (wf_nokeys dir c g H H1).
+  apply overlaps_iff. split; eapply kle_trans; eauto.
 Qed.
 
 Lemma taskok_promotion : forall dir c L t, WF dir c -> level_files (L + 1) dir = [] ->
@@ -921,7 +879,7 @@ Proof.
   intros dir c L t W H. unfold select_overlapping in H.
   destruct (level_files L dir) as [|f r] eqn:E; inversion H; subst t; clear H.
   destruct (head_oldest dir c L f r W E) as (Hf & Lf & Hold).
-  set (nxt := filter (fun g => overlaps (first_key f) (last_key f) (first_key g) (last_key g))
+  set (nxt := filter (fun g => overlaps (nokeys f) (nokeys g) (first_key f) (last_key f) (first_key g) (last_key g))
                      (level_files (L + 1) dir)) in *.
   unfold src_files, t_inputs, mk_task. simpl.
   assert (Q : (L <=? L + 1) = true) by (apply N.leb_le; lia). rewrite Q, N.leb_refl. simpl.
@@ -980,7 +938,7 @@ Qed.
 
 (* ---------- CompactRange ---------- *)
 
-Definition ovr (lo hi : bytes) (f : dfile) : bool := overlaps (first_key f) (last_key f) lo hi.
+Definition ovr (lo hi : bytes) (f : dfile) : bool := overlaps (nokeys f) false (first_key f) (last_key f) lo hi.
 
 Fixpoint all_levels (n : nat) (L : N) (dir : list dfile) : list dfile :=
   match n with
@@ -1072,32 +1030,6 @@ Proof.
       rewrite (L0 f Hf). lia. specialize (D f Hf). lia.
 Qed.
 
-Lemma hull_spec : forall ins lo hi lo' hi',
-  (forall f, In f ins -> first_key f <> [] /\ last_key f <> []) ->
-  hull lo hi ins = (lo', hi') ->
-  kle lo' lo /\ kle hi hi' /\ (lo <> [] -> lo' <> []) /\ (hi <> [] -> hi' <> []) /\
-  (forall f, In f ins -> kle lo' (first_key f) /\ kle (last_key f) hi').
-Proof.
-  unfold hull. induction ins as [|f r IH]; simpl; intros lo hi lo' hi' Hk E.
-  - inversion E; subst. repeat split; auto using kle_refl. tauto. tauto.
-  - destruct (Hk f (or_introl eq_refl)) as [Ff Lf].
-    set (lo1 := if blt (first_key f) lo then first_key f else lo) in *.
-    set (hi1 := if blt hi (last_key f) then last_key f else hi) in *.
-    assert (A1 : kle lo1 lo /\ kle lo1 (first_key f) /\ (lo <> [] -> lo1 <> [])).
-    { unfold lo1. destruct (blt (first_key f) lo) eqn:B.
-      - split. apply kle_lt. apply blt_true_lt; auto. split. apply kle_refl. auto.
-      - split. apply kle_refl. split. apply blt_false_kle; auto. auto. }
-    assert (B1 : kle hi hi1 /\ kle (last_key f) hi1 /\ (hi <> [] -> hi1 <> [])).
-    { unfold hi1. destruct (blt hi (last_key f)) eqn:B.
-      - split. apply kle_lt. apply blt_true_lt; auto. split. apply kle_refl. auto.
-      - split. apply kle_refl. split. apply blt_false_kle; auto. auto. }
-    destruct A1 as (A1 & A2 & A3), B1 as (B1 & B2 & B3).
-    destruct (IH lo1 hi1 lo' hi' (fun g Hg => Hk g (or_intror Hg)) E) as (C1 & C2 & C3 & C4 & C5).
-    split. eapply kle_trans; eauto. split. eapply kle_trans; eauto.
-    split. auto. split. auto.
-    intros g [<-|Hg]. split; eapply kle_trans; eauto. auto.
-Qed.
-
 Lemma filter_length_le : forall (A : Type) (p q : A -> bool) l,
   (forall x, In x l -> p x = true -> q x = true) -> (length (filter p l) <= length (filter q l))%nat.
 Proof.
@@ -1122,12 +1054,11 @@ Proof.
     + apply IHl; auto.
 Qed.
 
-Lemma ovr_mono : forall lo hi lo' hi' f, first_key f <> [] -> last_key f <> [] ->
-  kle lo' lo -> kle hi hi' -> lo' <> [] -> hi' <> [] -> ovr lo hi f = true -> ovr lo' hi' f = true.
+Lemma ovr_mono : forall lo hi lo' hi' f,
+  kle lo' lo -> kle hi hi' -> ovr lo hi f = true -> ovr lo' hi' f = true.
 Proof.
-  unfold ovr. intros. destruct (overlaps_nonnil _ _ _ _ H5) as (_ & _ & N1 & N2).
-  apply overlaps_iff in H5; auto. apply overlaps_iff; auto. destruct H5.
-  split; eapply kle_trans; eauto.
+  unfold ovr. intros. destruct (overlaps_keys _ _ _ _ _ _ H1) as [N1 _]. rewrite N1 in *.
+  apply overlaps_iff in H1. apply overlaps_iff. destruct H1. split; eapply kle_trans; eauto.
 Qed.
 
 (* the result of the widening loop: the selected files are exactly the files overlapping the
@@ -1137,49 +1068,45 @@ Lemma range_closure_spec : forall dir c, WF dir c -> forall fuel selected lo hi 
   (selected = 0%nat \/
    exists lo0 hi0, selected = length (filter (ovr lo0 hi0) (all_levels (N.to_nat (max_level dir)) 0 dir)) /\
      (forall f, In f dir -> ovr lo0 hi0 f = true -> ovr lo hi f = true) /\
-     (forall f, In f dir -> ovr lo0 hi0 f = true -> kle lo (first_key f) /\ kle (last_key f) hi) /\
-     lo <> [] /\ hi <> []) ->
+     (forall f, In f dir -> ovr lo0 hi0 f = true -> kle lo (first_key f) /\ kle (last_key f) hi)) ->
   concat (map snd groups) = [] \/
-  exists lo' hi', lo' <> [] /\ hi' <> [] /\
+  exists lo' hi',
     groups = range_groups (N.to_nat (max_level dir)) 0 lo' hi' dir /\
     forall f, In f (concat (map snd groups)) -> kle lo' (first_key f) /\ kle (last_key f) hi'.
 Proof.
   intros dir c W. set (X := all_levels (N.to_nat (max_level dir)) 0 dir).
   assert (HX : forall f, In f X <-> In f dir) by (apply all_levels_dir).
-  assert (Hk : forall f, In f dir -> first_key f <> [] /\ last_key f <> []).
-  { intros. eapply first_last_nonnil; eauto. apply (wf_nonempty _ _ W); auto. }
+  assert (Ret : forall selected lo hi,
+     length (filter (ovr lo hi) X) = selected ->
+     (selected = 0%nat \/
+      exists lo0 hi0, selected = length (filter (ovr lo0 hi0) X) /\
+        (forall f, In f dir -> ovr lo0 hi0 f = true -> ovr lo hi f = true) /\
+        (forall f, In f dir -> ovr lo0 hi0 f = true -> kle lo (first_key f) /\ kle (last_key f) hi)) ->
+     filter (ovr lo hi) X = [] \/
+     exists lo' hi', range_groups (N.to_nat (max_level dir)) 0 lo hi dir = range_groups (N.to_nat (max_level dir)) 0 lo' hi' dir /\
+       forall f, In f (filter (ovr lo hi) X) -> kle lo' (first_key f) /\ kle (last_key f) hi').
+  { intros selected lo hi E [->|(lo0 & hi0 & S & M & Cv)].
+    - left. destruct (filter (ovr lo hi) X); simpl in *; auto; discriminate.
+    - right. exists lo, hi. split; auto.
+      assert (filter (ovr lo hi) X = filter (ovr lo0 hi0) X).
+      { apply filter_same_length. intros x Hx. apply M. apply HX; auto. congruence. }
+      rewrite H. intros f Hf. apply filter_In in Hf. destruct Hf. apply Cv; auto. apply HX; auto. }
   induction fuel; intros selected lo hi groups H Inv; cbn [range_closure] in H;
     rewrite range_groups_concat in H; fold X in H.
   - destruct (Nat.eqb (length (filter (ovr lo hi) X)) selected) eqn:E; try discriminate.
     inversion H; subst groups; clear H. rewrite range_groups_concat. fold X.
-    apply Nat.eqb_eq in E. destruct Inv as [->|(lo0 & hi0 & S & M & Cv & N1 & N2)].
-    + left. destruct (filter (ovr lo hi) X); simpl in *; auto; discriminate.
-    + right. exists lo, hi. split; auto. split; auto. split; auto.
-      assert (filter (ovr lo hi) X = filter (ovr lo0 hi0) X).
-      { apply filter_same_length. intros x Hx. apply M. apply HX; auto. congruence. }
-      rewrite H. intros f Hf. apply filter_In in Hf. destruct Hf. apply Cv; auto. apply HX; auto.
+    apply Nat.eqb_eq in E. apply (Ret selected lo hi E Inv).
   - destruct (Nat.eqb (length (filter (ovr lo hi) X)) selected) eqn:E.
     + inversion H; subst groups; clear H. rewrite range_groups_concat. fold X.
-      apply Nat.eqb_eq in E. destruct Inv as [->|(lo0 & hi0 & S & M & Cv & N1 & N2)].
-      * left. destruct (filter (ovr lo hi) X); simpl in *; auto; discriminate.
-      * right. exists lo, hi. split; auto. split; auto. split; auto.
-        assert (filter (ovr lo hi) X = filter (ovr lo0 hi0) X).
-        { apply filter_same_length. intros x Hx. apply M. apply HX; auto. congruence. }
-        rewrite H. intros f Hf. apply filter_In in Hf. destruct Hf. apply Cv; auto. apply HX; auto.
+      apply Nat.eqb_eq in E. apply (Ret selected lo hi E Inv).
     + destruct (hull lo hi (filter (ovr lo hi) X)) as [lo2 hi2] eqn:EH.
       apply IHfuel in H; auto.
       destruct (filter (ovr lo hi) X) as [|f0 r0] eqn:EF. left; auto.
       right. exists lo, hi.
-      assert (Hf0 : In f0 dir /\ ovr lo hi f0 = true).
-      { assert (In f0 (filter (ovr lo hi) X)) by (rewrite EF; simpl; auto).
-        apply filter_In in H0. destruct H0. split; auto. apply HX; auto. }
-      destruct Hf0 as [Hf0 Of0]. unfold ovr in Of0. destruct (overlaps_nonnil _ _ _ _ Of0) as (_ & _ & N1 & N2).
-      destruct (hull_spec (f0 :: r0) lo hi lo2 hi2) as (C1 & C2 & C3 & C4 & C5); auto.
-      { intros f Hf. apply Hk. rewrite <- EF in Hf. apply filter_In in Hf. apply HX. tauto. }
+      destruct (hull_spec (f0 :: r0) lo hi lo2 hi2 EH) as (C1 & C2 & C5).
       split. rewrite EF. auto.
-      split. { intros f Hf Ho. destruct (Hk f Hf). eapply ovr_mono; eauto. }
-      split. { intros f Hf Ho. apply C5. rewrite <- EF. apply filter_In. split; auto. apply HX; auto. }
-      auto.
+      split. { intros f Hf Ho. eapply ovr_mono; eauto. }
+      intros f Hf Ho. apply C5. rewrite <- EF. apply filter_In. split; auto. apply HX; auto.
 Qed.
 
 Lemma filter_all_id : forall (A : Type) (p : A -> bool) l, (forall x, In x l -> p x = true) -> filter p l = l.
@@ -1192,7 +1119,7 @@ Proof.
   destruct (range_closure (S (length dir)) 0 lo hi dir) as [groups|] eqn:E; try discriminate.
   destruct (concat (map snd groups)) as [|x0 r0] eqn:EC; try discriminate.
   inversion H; subst t; clear H.
-  destruct (range_closure_spec dir c W _ _ _ _ _ E (or_introl eq_refl)) as [C|(lo' & hi' & N1 & N2 & -> & Cv)].
+  destruct (range_closure_spec dir c W _ _ _ _ _ E (or_introl eq_refl)) as [C|(lo' & hi' & -> & Cv)].
   { rewrite EC in C. discriminate. }
   set (n := N.to_nat (max_level dir)) in *.
   destruct (range_groups_src dir c n 0 lo' hi' W) as (S1 & S2 & S3 & _).
@@ -1367,12 +1294,6 @@ Proof.
     + exfalso. destruct (OP f Hf) as (Lf & _ & _).
       destruct (tk_out _ _ _ _ TK key g Hg Hng Hhg (OutIn f Hf Hhf)) as [A _]. congruence.
     + eapply (out_unique dir ins c T drop keep (cc_sstmax k) z W TK); eauto.
-  - intros f e Hf He. apply DI in Hf. destruct Hf as [[Hf _]|Hf]. eapply (wf_keys _ _ W); eauto.
-    destruct (OP f Hf) as (_ & _ & Hc).
-    destruct (exec_entries_from (fun x => negb drop || keep x) (cc_sstmax k) (map d_entries ins) e SA) as (y & Hy & Ek).
-    { apply in_concat. eauto. }
-    apply in_concat in Hy. destruct Hy as (l & Hl & Hy). apply in_map_iff in Hl. destruct Hl as (i & <- & Hi).
-    rewrite Ek. eapply (wf_keys _ _ W); eauto. apply (tk_incl _ _ _ _ TK); auto.
   - intros f Hf. apply DI in Hf. destruct Hf as [[Hf _]|Hf]. apply (wf_nonempty _ _ W); auto.
     destruct (OP f Hf) as (_ & _ & Hc). rewrite Forall_forall in CH. destruct (CH _ Hc). auto.
   - intros f Hf. apply DI in Hf. destruct Hf as [[Hf _]|Hf]. apply (wf_size _ _ W); auto.
